@@ -82,14 +82,23 @@ Inductive tr :=
 | TDistinct (t : tr) (exh : bool) (seen : list text)
 | TPrefetch (t : tr) (q : list cand) (exh : bool)
 | TCharset (t : tr) (exh : bool)
-| TUniquified (t : tr) (exh : bool) (yielded : list text).  (* yielded_: texts already handed to the next filter *)
+| TUniquified (t : tr) (exh : bool) (yielded : list text)  (* yielded_: texts already handed to the next filter *)
+| TSimplified (conv : cand -> option (cand * list cand)) (t : tr) (q : list cand) (exh : bool).
+  (* SimplifiedTranslation (simplifier.cc), a PrefetchTranslation whose Replenish pulls one candidate and
+     queues its converted forms.  [conv] is the oracle Simplifier::Convert of that filter instance: None =
+     returns false (the original is queued), Some (h, tl) = the non-empty list it pushed (Opencc::ConvertWord
+     succeeds only with forms->size() > 0).  The state is kept in replenished form: the Replenish that the
+     next Peek() would do is done as soon as the queue runs empty (Peek is pure in this model; every consumer
+     in librime peeks before it calls Next, and nothing is pushed to the menu between a Next and the
+     following Peek). *)
 
 Definition exhausted (t : tr) : bool :=
   match t with
   | TUnique _ e | TEcho _ e => e
   | TFifo l => match l with [] => true | _ => false end
   | TUnion ts => match ts with [] => true | _ => false end
-  | TMerged _ _ e | TCache _ e | TDistinct _ e _ | TPrefetch _ _ e | TCharset _ e | TUniquified _ e _ => e
+  | TMerged _ _ e | TCache _ e | TDistinct _ e _ | TPrefetch _ _ e | TCharset _ e | TUniquified _ e _
+  | TSimplified _ _ _ e => e
   end.
 
 Fixpoint peek (t : tr) : option cand :=
@@ -105,7 +114,7 @@ Fixpoint peek (t : tr) : option cand :=
          | x :: r => match n with 0 => peek x | S n' => pk r n' end
          end) ts k
   | TCache t0 e | TDistinct t0 e _ | TUniquified t0 e _ => if e then None else peek t0
-  | TPrefetch t0 q e => if e then None else match q with c :: _ => Some c | [] => peek t0 end
+  | TPrefetch t0 q e | TSimplified _ t0 q e => if e then None else match q with c :: _ => Some c | [] => peek t0 end
   | TCharset t0 _ => peek t0                     (* CharsetFilterTranslation::Peek does not test exhausted() *)
   end.
 
@@ -121,6 +130,7 @@ Fixpoint rem (t : tr) : nat :=
       S ((fix sum (l : list tr) : nat := match l with [] => 0 | x :: r => S (rem x + sum r) end) ts)
   | TCache t0 e | TDistinct t0 e _ | TCharset t0 e | TUniquified t0 e _ => if e then 0 else S (rem t0)
   | TPrefetch t0 q e => if e then 0 else S (length q + rem t0)
+  | TSimplified _ t0 q e => if e then 0 else S (length q + 7 * rem t0)   (* 7 = S max_forms *)
   end.
 
 Fixpoint height (t : tr) : nat :=
@@ -128,7 +138,7 @@ Fixpoint height (t : tr) : nat :=
   | TUnique _ _ | TEcho _ _ | TFifo _ => 1
   | TUnion ts | TMerged ts _ _ =>
       S ((fix mx (l : list tr) : nat := match l with [] => 0 | x :: r => Nat.max (height x) (mx r) end) ts)
-  | TCache t0 _ | TDistinct t0 _ _ | TCharset t0 _ | TUniquified t0 _ _ | TPrefetch t0 _ _ => S (height t0)
+  | TCache t0 _ | TDistinct t0 _ _ | TCharset t0 _ | TUniquified t0 _ _ | TPrefetch t0 _ _ | TSimplified _ t0 _ _ => S (height t0)
   end.
 
 (** Translation::Compare (translation.cc:12-23) and EchoTranslation::Compare
@@ -223,6 +233,12 @@ Fixpoint rewrite_at (k : nat) (nxt : cand) (c : cache) : cache :=
 
 Definition has_text (seen : list text) (t : text) : bool := existsb (text_eqb t) seen.
 
+(** the forms one candidate is replaced by; the model keeps at most [max_forms] of them
+    (the generated oracles produce at most three) so that [rem] stays a bound *)
+Definition max_forms : nat := 6.
+Definition forms_of (conv : cand -> option (cand * list cand)) (n : cand) : list cand :=
+  match conv n with None => [n] | Some (h, tl) => firstn max_forms (h :: tl) end.
+
 Section Loops.
   (** [nx] is Next of the inner translation at the smaller nesting budget *)
   Variable nx : tr -> cache -> bool * tr * cache.
@@ -295,6 +311,13 @@ Section Loops.
             else rearrange f t' top (bottom ++ [p]) c'
         end
     end.
+  (** SimplifiedTranslation once its queue ran empty: exhausted if the inner
+      translation is, otherwise Replenish (simplifier.cc:204-211) *)
+  Definition settle (conv : cand -> option (cand * list cand)) (t : tr) (c : cache) : tr * cache :=
+    if exhausted t then (TSimplified conv t [] true, c) else
+    let n := peek t in
+    let '(_, t', c') := nx t c in
+    (TSimplified conv t' (match n with Some x => forms_of conv x | None => [] end) false, c').
 End Loops.
 
 Definition dead : tr := TFifo [].
@@ -353,6 +376,14 @@ Fixpoint next_d (d : nat) (t : tr) (c : cache) : bool * tr * cache :=
           let '(_, t0', c') := next_d d' t0 c in              (* CacheTranslation::Next *)
           let '(r, t1, e1, c1) := uniquify (next_d d') (S (rem t0')) yl' t0' (exhausted t0') c' in
           (r, TUniquified t1 e1 yl', c1)
+      | TSimplified conv t0 q e =>
+          if e then (false, t, c) else
+          match q with
+          | _ :: (_ :: _) as q' => (true, TSimplified conv t0 q' false, c)
+          | [_] => let '(t', c') := settle (next_d d') conv t0 c in (true, t', c')
+          | [] => let '(_, t0', c1) := next_d d' t0 c in      (* PrefetchTranslation::Next with an empty cache_ *)
+                  let '(t', c') := settle (next_d d') conv t0' c1 in (true, t', c')
+          end
       end
   end.
 
@@ -374,6 +405,8 @@ Definition mk_single_char (d : nat) (t : tr) (c : cache) : tr * cache :=
   (TPrefetch t' q false, c').
 Definition mk_charset (d : nat) (t : tr) (c : cache) : tr * cache :=
   let '(found, t', c') := locate (next_d d) (S (rem t)) t c in (TCharset t' (negb found), c').
+Definition mk_simplified (d : nat) (conv : cand -> option (cand * list cand)) (t : tr) (c : cache) : tr * cache :=
+  settle (next_d d) conv t c.
 Definition mk_uniquified (d : nat) (t : tr) (c : cache) : tr * cache :=
   let '(_, t', e', c') := uniquify (next_d d) (S (rem t)) [] t (exhausted t) c in (TUniquified t' e' [], c').
 
